@@ -6,6 +6,7 @@ import (
 	"sort"
 	"strconv"
 	"strings"
+	"sync/atomic"
 	"testing"
 	"time"
 
@@ -404,7 +405,77 @@ func evalC05App(c c05App) *Failure {
 	return nil
 }
 
+// c05Wide: commands over many keys (MSET, MSETNX, MGET, HMSET, DEL ... with 8..40 keys) with a handler that takes a
+// moment per call and fails at one of them: every handler call the command makes happens before the command is answered -
+// none is still running, or started, after the reply.
+type c05Wide struct {
+	Cmd     string `json:"cmd"`
+	N       int    `json:"n"`        // keys
+	ErrAt   int    `json:"err_at"`   // the handler call (by sequence number) that returns an error; -1: none
+	DelayUS int    `json:"delay_us"` // time each handler call takes
+}
+
+func evalC05Wide(c c05Wide) *Failure {
+	srv, rec := newRecServer()
+	var running, late int64
+	answered := make(chan struct{})
+	rec.ResultFn = func(cl *doubles.Call) doubles.Result {
+		atomic.AddInt64(&running, 1)
+		defer atomic.AddInt64(&running, -1)
+		select {
+		case <-answered:
+			atomic.AddInt64(&late, 1)
+		default:
+		}
+		time.Sleep(time.Duration(c.DelayUS) * time.Microsecond)
+		if cl.Seq == c.ErrAt {
+			return doubles.Result{Err: "ERR the store refuses this key"}
+		}
+		if cl.Method == "Get" {
+			return doubles.Result{Nil: false, Val: func() *resp.Value { v := resp.Nil(); return &v }()}
+		}
+		return doubles.DefaultResult(cl)
+	}
+	args := []string{c.Cmd}
+	if c.Cmd == "HMSET" {
+		args = append(args, "h")
+	}
+	for i := 0; i < c.N; i++ {
+		args = append(args, fmt.Sprintf("k%d", i))
+		if c.Cmd == "MSET" || c.Cmd == "MSETNX" || c.Cmd == "HMSET" {
+			args = append(args, "v")
+		}
+	}
+	conn := connsim.NewGated(1)
+	done := connsim.Go(srv, conn)
+	conn.Feed(resp.Cmd(args...).Bytes())
+	what := fmt.Sprintf("%s over %d keys, every handler call takes %d us, call %d fails", c.Cmd, c.N, c.DelayUS, c.ErrAt)
+	if idle, to := conn.WaitIdle(nil, serveTimeout()); !idle || to {
+		return stallFailure("c05|wide", what)
+	}
+	// the command has been answered (the server waits for the next request)
+	stillRunning := atomic.LoadInt64(&running)
+	close(answered)
+	n0 := len(rec.Snapshot())
+	time.Sleep(time.Duration(3*c.DelayUS)*time.Microsecond + 5*time.Millisecond)
+	n1 := len(rec.Snapshot())
+	conn.CloseRead(false)
+	select {
+	case <-done:
+	case <-time.After(serveTimeout()):
+		return stallFailure("c05|wide", what)
+	}
+	if frames, _, _ := conn.Frames(); len(frames) != 1 {
+		return failf("c05|reply-count|"+c.Cmd, "%s: %d replies", what, len(frames))
+	}
+	if stillRunning > 0 || n1 != n0 || atomic.LoadInt64(&late) > 0 {
+		return failf("c05|calls-after-reply|"+c.Cmd, "%s: when the command had been answered %d handler calls were still running, %d more were started afterwards", what, stillRunning, n1-n0)
+	}
+	return nil
+}
+
 func init() {
+	register("c05.wide", evalC05Wide)
 	register("c05.cmd", evalC05)
 	register("c05.unknown", evalC05Unknown)
 	register("c05.app", evalC05App)
@@ -432,7 +503,7 @@ func genReplyValue() *rapid.Generator[resp.Value] {
 
 func TestC05(t *testing.T) {
 	h := newHarness(t, "C05", "every command of an independent grammar (67 names = all registered executors) x generated well-formed argument vectors (all option combinations and orders, "+
-		"binary-safe strings, boundary integers/floats, 1..5 list elements, duplicate keys) x random letter case x optional preceding SELECT; plus unknown command names and application executors. "+
+		"binary-safe strings, boundary integers/floats, 1..5 list elements, duplicate keys) x random letter case x optional preceding SELECT x handler result (a message, an error, a message and an error); plus unknown command names, application executors, and commands over 2..40 keys with a handler that takes a moment per call and fails at one of them (no handler call may be running or started once the command is answered). "+
 		"Oracle: the recording handler's call log equals the grammar's expected calls (method, canonical arguments, database, connection) and the client receives the handler's result. "+
 		"Non-trivial: the vector has an option, >=2 list elements, a duplicate key, a binary argument or mixed-case names. Distinct = distinct request bytes (+ scripted handler mode).")
 	defer h.Finish()
@@ -486,6 +557,14 @@ func TestC05(t *testing.T) {
 			h.Fail(rt, "c05.cmd", c, evalC05(c))
 		})
 	}
+
+	h.Rapid("wide", h.N(80, 3000), func(rt *rapid.T) {
+		c := c05Wide{Cmd: rapid.SampledFrom([]string{"MSET", "MSETNX", "MGET", "HMSET", "DEL", "EXISTS"}).Draw(rt, "cmd"), N: rapid.SampledFrom([]int{2, 7, 8, 9, 16, 40}).Draw(rt, "n"),
+			DelayUS: rapid.SampledFrom([]int{0, 200, 1000}).Draw(rt, "delay")}
+		c.ErrAt = rapid.IntRange(-1, c.N).Draw(rt, "errat")
+		h.Col.Case(c.N >= 8 && c.ErrAt >= 0, []byte(fmt.Sprint("wide", c)), "wide:"+c.Cmd)
+		h.Fail(rt, "c05.wide", c, evalC05Wide(c))
+	})
 
 	h.Rapid("unknown", h.N(2000, 100000), func(rt *rapid.T) {
 		var name string
